@@ -133,7 +133,7 @@ func c11R18(c *Ctx) {
 
 // c11R19 (F90, known finding): a start that fails while BUILDING releases the processors it already reserved.
 func c11R19(c *Ctx) {
-	r := c.R.Rule("R19", "K4 a failed start releases what was built (build phase, both engines): the function that assembles the run (v1 buildNodes, v2 buildRunnablePipeline) tears down, on an error return, the processors it has already made runnable", 2)
+	r := c.R.Rule("R19", "K4 a failed start releases what was built (build phase, both engines): the function that assembles the run (v1 buildNodes, v2 buildRunnablePipeline) tears down, on an error return, the processors it has already made runnable, and every MakeRunnableProcessor result of the build helpers is appended to the list that is torn down", 4)
 	set := processorReleaseSet(c, r)
 	for _, t := range []struct{ eng, rel, name string }{{"v1", pLife, "(*Service).buildNodes"}, {"v2", pLife2, "(*Service).buildRunnablePipeline"}} {
 		fn := c.SSA(r, t.rel, t.name)
@@ -179,6 +179,33 @@ func c11R19(c *Ctx) {
 							released = true
 						}
 					}
+				}
+			}
+		}
+		// … and every processor made runnable during the build is registered for that release: the result of each
+		// MakeRunnableProcessor call in the package's build* helpers flows into an append (the collector)
+		if mk := c.W.LookupFunc(t.rel, "ProcessorService.MakeRunnableProcessor"); mk != nil && released {
+			p := c.W.Pkg(t.rel)
+			for _, g := range c.W.AllFuncs(c.W.SSA[p.Types]) {
+				root := g
+				for root.Parent() != nil {
+					root = root.Parent()
+				}
+				if !strings.HasPrefix(root.Name(), "build") {
+					continue
+				}
+				for _, call := range kit.CallsTo(g, c.Fam(mk)) {
+					v := kit.ResultN(call, 0)
+					collected := v != nil && kit.FlowsTo(v, func(in ssa.Instruction, _ ssa.Value) bool {
+						cl, ok := in.(*ssa.Call)
+						if !ok {
+							return false
+						}
+						b, ok := cl.Call.Value.(*ssa.Builtin)
+						return ok && b.Name() == "append"
+					})
+					c.R.Check(collected, r, t.eng+" "+root.Name()+": the processor made runnable is registered for the release", c.Pos(call.Pos()), "appended to the collector",
+						"the runnable processor returned by MakeRunnableProcessor in "+root.Name()+" is not added to the list the build tears down when it fails: that processor stays reserved (\"processor already running\") after a failed start", false)
 				}
 			}
 		}
